@@ -102,6 +102,9 @@ struct P13 {
 struct P14 {
     callsign: Option<String>,
     vel: Option<(f32, f32, i16)>,
+    /// the latest vertical rate any report actually carried (raw field non-zero), judged from the
+    /// raw field, independently of the decoder's `calculate()`
+    vr_carried: Option<i16>,
     /// previously published positions (superseded or dropped), in order; bool = dropped by a clear
     hist: Vec<(Position, bool)>,
     cur: Option<Position>,
@@ -707,6 +710,24 @@ fn check_c14_attrs(idx: usize, hex: &str, addr: &Addr, me: &ME, st: &AirplaneSta
         ME::AirborneVelocity(v) => match v.calculate() {
             Some((hd, gs, vr)) => {
                 p.vel = Some((hd, gs as f32, vr));
+                // a raw vertical-rate field of 0 means "no vertical rate information": whatever
+                // the decoder reports for it, the record must keep the last rate that was carried
+                if v.vrate_value != 0 {
+                    p.vr_carried = Some((v.vrate_value as i16 - 1) * 64 * v.vrate_sign.value());
+                } else if let Some(pv) = p.vel.as_mut() {
+                    out.probe("velocity_report_without_vertical_rate_decoded_as_valid");
+                    match p.vr_carried {
+                        Some(keep) => pv.2 = keep,
+                        None => {
+                            // no rate was ever carried: the record must not show one
+                            if st.vert_speed.is_some() {
+                                out.violate("C14:vertical-rate-from-a-report-that-carried-none", format!("event #{idx} {hex}: {who} vertical rate {:?}, but no report so far carried a vertical rate (raw field 0 = no information)", st.vert_speed));
+                            }
+                            // heading / speed of this report are judged below, the rate is not
+                            pv.2 = st.vert_speed.unwrap_or(0);
+                        }
+                    }
+                }
             }
             None => {
                 if p.vel.is_some() {
@@ -722,6 +743,7 @@ fn check_c14_attrs(idx: usize, hex: &str, addr: &Addr, me: &ME, st: &AirplaneSta
     let got = match (st.heading, st.speed, st.vert_speed) {
         (Some(a), Some(b), Some(c)) => Some((a, b, c)),
         (None, None, None) => None,
+        (Some(a), Some(b), None) if p.vr_carried.is_none() && p.vel.is_some() => Some((a, b, p.vel.unwrap().2)),
         _ => {
             out.violate("C14:velocity-partially-set", format!("event #{idx} {hex}: {who} heading {:?} speed {:?} vertical {:?}", st.heading, st.speed, st.vert_speed));
             return;
